@@ -2182,3 +2182,53 @@ func c19R9(c *Ctx, r *Report) {
 	r.Check(looksBack && minus && firstPush != token.NoPos, rule, handler.Name(), "the sign of a number depends on the preceding token", c.pos(handler.Decl.Pos()),
 		"the number pattern takes a leading '-' into the literal and its handler never looks at what precedes it: `7-5` and `x -5` lex as two operands in a row (`expected ';'`) while `7 - 5` is a subtraction — the spacing decides whether the program compiles")
 }
+
+// ---- C10.R9: the parser classifies number tokens with the lexer's grammar -------------------------------------
+
+func init() {
+	lateInits = append(lateInits, func() {
+		props["C10"].Quick = append(props["C10"].Quick, c10R9)
+		props["C13"].Quick = append(props["C13"].Quick, c10R9)
+		props["C10"].Explanation += " (R9) the number grammar of the lexer admits an exponent without a fraction (`1e5`); the parser decides between an integer and a float literal with a predicate of package numeric, or by testing for '.', 'e' and 'E' alike, so that no token with an exponent becomes an integer literal."
+	})
+}
+
+func c10R9(c *Ctx, r *Report) {
+	const rule = "C10.R9"
+	r.Describe(rule, "parser.parsePrimary, case NUMBER_TOKEN: when numeric.FloatNumber makes the fraction optional before an exponent, the clause that sets Kind FLOAT is guarded by a call into package numeric or compares the characters against '.', 'e' and 'E'")
+	fn := c.LookupFn(pkgParser, "(*Parser).parsePrimary")
+	fl, _ := c.lookupObj("internal/utils/numeric", "FloatNumber").(*types.Const)
+	if !r.Anchor(rule, fn != nil && fl != nil, "parser.parsePrimary / numeric.FloatNumber") {
+		return
+	}
+	pat := constant.StringVal(fl.Val())
+	if !strings.Contains(pat, ")?(?:[eE]") {
+		r.OK(rule, "numeric.FloatNumber", "an exponent requires a fraction", c.pos(fl.Pos()), "every float token contains a '.'")
+		return
+	}
+	cc := clauseOf(fn, "NUMBER_TOKEN", nil)
+	if !r.Anchor(rule, cc != nil, "parsePrimary: case tokens.NUMBER_TOKEN") {
+		return
+	}
+	info := fn.Info()
+	usesNumeric := false
+	chars := map[string]bool{}
+	for _, st := range cc.Body {
+		ast.Inspect(st, func(x ast.Node) bool {
+			switch y := x.(type) {
+			case *ast.CallExpr:
+				if f := callee(info, y); f != nil && f.Pkg() != nil && strings.HasSuffix(f.Pkg().Path(), "internal/utils/numeric") {
+					usesNumeric = true
+				}
+			case *ast.BasicLit:
+				if y.Kind == token.CHAR {
+					chars[y.Value] = true
+				}
+			}
+			return true
+		})
+	}
+	ok := usesNumeric || (chars["'.'"] && chars["'e'"] && chars["'E'"])
+	r.Check(ok, rule, fn.Name(), "a number token with an exponent is a float literal", c.pos(cc.Pos()),
+		"the lexer accepts `1e5` as one number token, and the parser calls it an integer literal because it contains no '.': `let a := 1e5;` reaches QBE as the integer \"1e5\" (\"invalid integer literal\"), `let b: f64 = 1e3;` fails with \"cannot use type 'unknown'\"")
+}
